@@ -154,6 +154,17 @@ class ComponentBump:
         """
         if self.to_rbuild is None:
             return {}
+        # RBuild's included into previous build(s) of parent repo: from_rbuilds
+        # and all their ancestors (ancestor may be reachable from to_rbuild by a
+        # path which does not go through from_rbuilds if component history
+        # contains merges)
+        already_included = {}
+        todo = list(self.from_rbuilds.values())
+        while todo:
+            rb = todo.pop()
+            if rb.iid not in already_included:
+                already_included[rb.iid] = rb
+                todo.extend(rb.parent_rbuilds.values())
         # DFS rbuilds in the component
         dfs_stack = [[self.to_rbuild]]
         dfs_sp = [0]
@@ -177,7 +188,7 @@ class ComponentBump:
 
             cur_rbuild = dfs_stack[-1][cur_sp]
 
-            if cur_rbuild.iid in self.from_rbuilds:
+            if cur_rbuild.iid in already_included:
                 # do not go deeper
                 dfs_sp[-1] = cur_sp - 1
                 continue
